@@ -412,8 +412,14 @@ func scanFromEntry(fn *ssa.Function, stop func(ssa.Instruction) bool) (miss, hit
 
 // receiverWriters: module methods that change their own receiver (a map update, delete,
 // append-store or assignment on one of its fields).
+var receiverWritersMemo = map[*core.Program]map[*ssa.Function]bool{}
+
 func receiverWriters(c *core.Ctx) map[*ssa.Function]bool {
+	if m, ok := receiverWritersMemo[c.P]; ok {
+		return m
+	}
 	out := map[*ssa.Function]bool{}
+	receiverWritersMemo[c.P] = out
 	for _, fn := range c.P.ModFuncs {
 		if fn.Parent() != nil || fn.Signature.Recv() == nil {
 			continue
@@ -426,11 +432,11 @@ func receiverWriters(c *core.Ctx) map[*ssa.Function]bool {
 					w = true
 				}
 			case *ssa.MapUpdate:
-				if strings.HasPrefix(an.PathOf(x.Map), "recv.") {
+				if strings.HasPrefix(an.PathOf(x.Map), "recv.") || x.Map == ssa.Value(fn.Params[0]) {
 					w = true
 				}
 			case *ssa.Call:
-				if b, ok := x.Call.Value.(*ssa.Builtin); ok && (b.Name() == "delete" || b.Name() == "clear") && len(x.Call.Args) > 0 && strings.HasPrefix(an.PathOf(x.Call.Args[0]), "recv.") {
+				if b, ok := x.Call.Value.(*ssa.Builtin); ok && (b.Name() == "delete" || b.Name() == "clear") && len(x.Call.Args) > 0 && (strings.HasPrefix(an.PathOf(x.Call.Args[0]), "recv.") || x.Call.Args[0] == ssa.Value(fn.Params[0])) {
 					w = true
 				}
 			}
